@@ -127,6 +127,16 @@ RECURSIVE HasDimLeafArgs(_, _)
 HasDimLeafArgs(args, i) == IF i > Len(args) THEN FALSE ELSE HasDimLeaf(args[i]) \/ HasDimLeafArgs(args, i + 1)
 HasDimLeaf(e) == CASE e.t = "num" -> e.u # "" [] e.t = "var" -> FALSE [] e.t = "op" -> HasDimLeaf(e.l) \/ HasDimLeaf(e.r)
                    [] e.t = "fn" -> HasDimLeafArgs(e.args, 1)
+\* inside the legacy functions min()/max() a sum of a unitless number and a dimension is SassScript addition (3px - 1 = 2px)
+RECURSIVE HasLegacySum(_)
+RECURSIVE LegacySumArgs(_, _)
+LegacySumArgs(args, i) == IF i > Len(args) THEN FALSE ELSE HasLegacySum(args[i]) \/ LegacySumArgs(args, i + 1)
+HasLegacySum(e) ==
+  CASE e.t = "op" -> \/ HasLegacySum(e.l) \/ HasLegacySum(e.r)
+                     \/ (e.op \in {"+", "-"} /\ \E env \in Envs : LET a == EvalCalc(e.l, env)  b == EvalCalc(e.r, env) IN
+                            ~IsBad(a) /\ ~IsBad(b) /\ a.dim # b.dim /\ (a.dim = None3 \/ b.dim = None3))
+    [] e.t = "fn" -> LegacySumArgs(e.args, 1)
+    [] OTHER -> FALSE
 RECURSIVE MixedMinMax(_)
 RECURSIVE MixedArgs(_, _)
 MixedArgs(args, i) == IF i > Len(args) THEN FALSE ELSE MixedMinMax(args[i]) \/ MixedArgs(args, i + 1)
@@ -134,6 +144,7 @@ MixedMinMax(e) ==
   CASE e.t = "op" -> MixedMinMax(e.l) \/ MixedMinMax(e.r)
     [] e.t = "fn" -> \/ MixedArgs(e.args, 1)
                      \/ (e.f \in {"min", "max"} /\ HasUnitless(e) /\ HasDimLeaf(e))
+                     \/ (e.f \in {"min", "max"} /\ LegacySumArgs(e.args, 1))
                      \/ (e.f \in {"min", "max"} /\ LET vs == EvalArgs(e.args, AnyEnv, 1) IN      \* a unitless quotient next to a dimension
                             (\E i \in 1..Len(vs) : vs[i].dim = None3) /\ (\E i \in 1..Len(vs) : vs[i].dim # None3))
     [] OTHER -> FALSE
@@ -146,6 +157,30 @@ MayBeCompound(e) ==
                      \/ (e.op = "/" /\ HasDimLeaf(e.r))                    \* a unit in a denominator
                      \/ MayBeCompound(e.l) \/ MayBeCompound(e.r)
     [] e.t = "fn" -> CompoundArgs(e.args, 1)
+    [] OTHER -> FALSE
+\* left open: a quotient whose divisor is zero under some environment, unless it is the whole calculation (that case is the
+\* 'special' outcome: Infinity/NaN) - arithmetic continuing from an infinite intermediate result is not modelled
+RECURSIVE HasZeroDiv(_)
+RECURSIVE ZeroDivArgs(_, _)
+ZeroDivArgs(args, i) == IF i > Len(args) THEN FALSE ELSE HasZeroDiv(args[i]) \/ ZeroDivArgs(args, i + 1)
+ZeroValued(x) == \E env \in Envs : LET v == EvalCalc(x, env) IN ~IsBad(v) /\ v.q[1] = 0
+HasZeroDiv(e) == CASE e.t = "op" -> (e.op = "/" /\ ZeroValued(e.r)) \/ HasZeroDiv(e.l) \/ HasZeroDiv(e.r)
+                   [] e.t = "fn" -> ZeroDivArgs(e.args, 1)
+                   [] OTHER -> FALSE
+InfiniteIntermediate(e) ==
+  IF e.t = "fn" /\ e.f = "calc" /\ e.args[1].t = "op" /\ e.args[1].op = "/" /\ ~HasZeroDiv(e.args[1].l) /\ ~HasZeroDiv(e.args[1].r)
+  THEN FALSE ELSE HasZeroDiv(e)
+\* left open: clamp() whose lower bound exceeds its upper bound under some environment (CSS says the lower bound wins,
+\* the reference implementation returns the upper bound)
+RECURSIVE InvertedClamp(_)
+RECURSIVE InvertedArgs(_, _)
+InvertedArgs(args, i) == IF i > Len(args) THEN FALSE ELSE InvertedClamp(args[i]) \/ InvertedArgs(args, i + 1)
+InvertedClamp(e) ==
+  CASE e.t = "op" -> InvertedClamp(e.l) \/ InvertedClamp(e.r)
+    [] e.t = "fn" -> \/ InvertedArgs(e.args, 1)
+                     \/ (e.f = "clamp" /\ Len(e.args) = 3 /\ \E env \in Envs :
+                            LET lo == EvalCalc(e.args[1], env)  hi == EvalCalc(e.args[3], env) IN
+                            ~IsBad(lo) /\ ~IsBad(hi) /\ lo.dim = hi.dim /\ QLt(hi.q, lo.q))
     [] OTHER -> FALSE
 Simple(d) == d \in {None3, <<1, 0, 0>>, <<0, 1, 0>>, <<0, 0, 1>>}
 =============================================================================
